@@ -38,7 +38,7 @@ THEOREMS = [
     for n in (
         "table_rows_ok fixed_branch_width fixed_branch_width_rat fixed_branch_width_tables "
         "sscanf_parses_field sscanf_parses_recognised fixed_branch_accuracy fixed_precision_maximal "
-        "sci_consts_ok sci_width_accuracy sci_width small_branch_pos small_branch_neg_partial last_branches "
+        "sci_consts_ok sci_width_accuracy sci_width small_branch_pos small_branch_neg_partial last_branches tables_format_ok format_float_total_partial "
         "carry_guard_sound int_field_roundtrip blank_field_roundtrip line_roundtrip "
         "card_line_roundtrip_partial str_field_roundtrip card_fields_ok card_roundtrip_small card_roundtrip_large card_roundtrip_comma card_fixed_comma_agree"
     ).split()
@@ -84,10 +84,10 @@ PARTIAL = (
     "the even-line padding), card_roundtrip_comma (lines of any length) and card_fixed_comma_agree, "
     "int/blank/str field round trips, card_fields_ok.  Still partial: (1) small_branch_neg_partial assumes "
     "|x| > 1/2 10^-p (the one double between the literal 5e-7 / 5e-15 and its nearest double, where the code relies on "
-    "float(field1) == float('-0.') being false, is tied by correspondence only); (2) the dispatch of the if-chain "
-    "to the branch theorems (rowTest compares with the literal's nearest double) is not one theorem: it is "
-    "table_rows_ok (tiling of the decades, guards) + translator + exact correspondence on both sides of every "
-    "bound; (3) that the mixed branch picks the more precise alternative (float(field1) == float(field2)) is not "
+    "float(field1) == float('-0.') being false, is tied by correspondence only); (2) format_float_total_partial (the whole of "
+    "format_float8/16 through the if-chain dispatch: width, grammar, read-back for every fraction in range, side "
+    "conditions tables_format_ok by decide on the regenerated tables) inherits that exclusion and states no "
+    "accuracy of its own (the per-branch theorems do); (3) that the mixed branch picks the more precise alternative (float(field1) == float(field2)) is not "
     "proved - each alternative has its own proved bound; (4) a comma-form writer does not exist in pyyeti: "
     "card_roundtrip_comma is about the specification text commaText; card-name matching is proved for one-card "
     "files (multi-card files, prefixes and foreign lines are correspondence only)"
@@ -95,8 +95,8 @@ PARTIAL = (
 MANIFEST = {
     "level_text": "proof",
     "level_note": "Lean theorems per branch (exact text, width, read-back, accuracy over all fractions) and for "
-                  "cards (8/16/comma forms, any number of lines); the if-chain dispatch, multi-card files and the "
-                  "boundary double of the negative mixed branch are tied by translator + exact correspondence",
+                  "cards (8/16/comma forms, any number of lines); multi-card files and the boundary "
+                  "double of the negative mixed branch are tied by translator + exact correspondence",
     "technique": "Lean 4 model + ast translator (NasFloatTables) + differential correspondence",
 }
 
@@ -808,18 +808,18 @@ def _number_failures(bulk, x, which=("f8", "f16", "d16", "s8", "s16")):
         try:
             s = getattr(bulk, fname)(x)
         except Exception as e:  # noqa: BLE001
-            out.append(("%s-raises-%s" % (fname.replace("_", "-"), type(e).__name__), "%s raises" % fname,
+            out.append(("%s-raises-%s" % (fname.strip("_").replace("_", "-"), type(e).__name__), "%s raises" % fname,
                         inp, repr(e), "a %d-character field" % W))
             continue
         if len(s) != W:
-            fam = "%s-width-%d" % (fname.replace("_", "-"), len(s))
+            fam = "%s-width-%d" % (fname.strip("_").replace("_", "-"), len(s))
             if key == "f16" and -1e14 < x <= -99999999999999.5:
                 fam = FAM_F7
             out.append((fam, "%s returns %d characters" % (fname, len(s)), inp, s, "exactly %d characters" % W))
             continue
         v = bulk.nas_sscanf(s)
         if not isinstance(v, float):
-            fam = "%s-field-not-read-as-float" % fname.replace("_", "-")
+            fam = "%s-field-not-read-as-float" % fname.strip("_").replace("_", "-")
             if x > 0 and isinstance(v, int) and "." not in s:
                 fam = FAM_CARRY
             out.append((fam, "%s field %r is read back as %r, not as a real" % (fname, s, v), inp,
@@ -827,19 +827,19 @@ def _number_failures(bulk, x, which=("f8", "f16", "d16", "s8", "s16")):
             continue
         if x == 0.0:
             if v != 0.0:
-                out.append(("%s-zero" % fname.replace("_", "-"), "zero is not written as zero", inp, s, "0."))
+                out.append(("%s-zero" % fname.strip("_").replace("_", "-"), "zero is not written as zero", inp, s, "0."))
             continue
         if not (1e-300 <= abs(x) <= 1e300):
             continue
         unit = _best_unit(x, W, dstyle)
         if unit is None or math.isinf(v):
-            out.append(("%s-unrepresentable" % fname.replace("_", "-"), "no representation", inp, s, "finite"))
+            out.append(("%s-unrepresentable" % fname.strip("_").replace("_", "-"), "no representation", inp, s, "finite"))
             continue
         err = abs(Fraction(v) - Fraction(x))
         tol = unit / 2 * Fraction(101, 100) + 2 * Fraction(math.ulp(x))
         if err > tol:
             e = Decimal(x).adjusted()
-            fam = "%s-precision-%s-decade-%s" % (fname.replace("_", "-"), "neg" if x < 0 else "pos",
+            fam = "%s-precision-%s-decade-%s" % (fname.strip("_").replace("_", "-"), "neg" if x < 0 else "pos",
                                                   e if -4 <= e <= W else ("small" if e < 0 else "large"))
             out.append((fam, "%s loses precision the field width allows" % fname, inp,
                         {"field": s, "error": float(err)}, {"max_error": float(tol), "last_digit": float(unit)}))
